@@ -49,9 +49,13 @@ type C14Payload struct {
 	ErrWith    bool             `json:"err_with_data,omitempty"`
 	Stall      int              `json:"stall,omitempty"` // consecutive zero-byte reads at the start of a run (0 = none)
 	Arbitrary  BStr             `json:"arbitrary,omitempty"`
-	Stores     []Op             `json:"stores,omitempty"`
-	IniOpts    uint             `json:"ini_opts,omitempty"`
-	CrashAfter int              `json:"crash_after,omitempty"`
+	// LateIgnore: the IniParser is constructed while the parser's IgnoreUnknown
+	// bit has the opposite value; the bit is flipped to its declared value before
+	// the read (what counts is the configuration when the file is read).
+	LateIgnore bool `json:"late_ignore,omitempty"`
+	Stores     []Op `json:"stores,omitempty"`
+	IniOpts    uint `json:"ini_opts,omitempty"`
+	CrashAfter int  `json:"crash_after,omitempty"`
 }
 
 type propC14 struct{}
@@ -359,7 +363,7 @@ func genC14Structured(r *Rng, sc *Scenario) {
 
 func genC14Fault(r *Rng, d *DeclSpec, p *C14Payload) *C14Fault {
 	f := &C14Fault{At: r.Range(0, len(p.Entries))}
-	kinds := []string{"malformed-header", "empty-section", "no-equals", "bad-quote", "unknown-option", "bad-value", "unknown-section", "unknown-section-empty", "bad-map-quote", "empty-key"}
+	kinds := []string{"malformed-header", "empty-section", "no-equals", "bad-quote", "unknown-option", "bad-value", "unknown-section", "unknown-section-empty", "bad-map-quote", "empty-key", "bad-choice", "func-with-arg", "unmarshal-fails"}
 	f.Kind = r.Pick(kinds)
 	prev := func() *C14Entry {
 		if f.At == 0 || len(p.NoisyOrder) == 0 {
@@ -386,6 +390,32 @@ func genC14Fault(r *Rng, d *DeclSpec, p *C14Payload) *C14Fault {
 		f.More = r.Pick([]string{"zz = 1", "a = b", ""})
 	case "unknown-section-empty":
 		f.Text = r.Pick([]string{"[No Such Group]", "[nosuchcmd.Options]", "[Application Options.Nope]"})
+	case "bad-choice", "func-with-arg", "unmarshal-fails":
+		// an entry the option itself rejects (choice list, parameterless callback,
+		// failing UnmarshalFlag): placed right after an entry of a suitable option
+		e := prev()
+		ok := false
+		if e != nil {
+			var spec *OptSpec
+			for _, oi := range optInfos(d) {
+				if oi.Path == e.Opt {
+					spec = oi.O
+				}
+			}
+			switch {
+			case spec == nil:
+			case f.Kind == "bad-choice" && len(spec.Choices) > 0:
+				f.Text, ok = e.Key+" = purple", true
+			case f.Kind == "func-with-arg" && strings.HasPrefix(e.Kind, "func()"):
+				f.Text, ok = e.Key+" = "+r.Pick([]string{"x", "true", "1"}), true
+			case f.Kind == "unmarshal-fails" && baseKind(e.Kind) == "um" && !isMapKind(e.Kind):
+				f.Text, ok = e.Key+" = badvalue", true
+			}
+		}
+		if !ok {
+			f.Kind = "unknown-option"
+			f.Text = "nosuchkeyzz = 1"
+		}
 	case "bad-value", "bad-map-quote":
 		e := prev()
 		ok := false
@@ -495,6 +525,7 @@ func (propC14) Gen(r *Rng, idx int, tier string) *Scenario {
 	text := p.currentText()
 	p.ChunksB, p.RestB = genChunkPlan(cr, len(text))
 	p.ViaFile = cr.Chance(1, 3)
+	p.LateIgnore = p.Source == "structured" && cr.Chance(1, 6)
 	if cr.Chance(1, 3) && len(text) > 0 {
 		p.ErrAt = cr.Range(1, len(text))
 		p.ErrKind = cr.Pick([]string{"EIO", "EINTR", "UNEXPECTED_EOF", "EACCES"})
@@ -654,6 +685,13 @@ func c14Read(sc *Scenario, data string, chunks []simrt.ReadStep, rest int, viaFi
 		op.Data = BStr(data)
 	}
 	s2.Ops = []Op{op}
+	if sc.C14 != nil && sc.C14.LateIgnore {
+		d2 := *sc.Decl
+		d2.Options ^= optIgnoreUnknown
+		s2.Decl = &d2
+		op.UseKept = true
+		s2.Ops = []Op{{Kind: "newini"}, {Kind: "setopts", IniOpts: sc.Decl.Options}, op}
+	}
 	o := Execute(&s2, nil)
 	return o, lastOp(o)
 }
@@ -942,6 +980,7 @@ func (propC14) Reductions(sc *Scenario) []func(*Scenario) bool {
 		func(s *Scenario) bool { s.C14.ChunksB, s.C14.RestB = nil, 1; return true },
 		func(s *Scenario) bool { s.C14.ErrAt, s.C14.Stall = 0, 0; return true },
 		func(s *Scenario) bool { s.C14.ViaFile = false; return true },
+		func(s *Scenario) bool { s.C14.LateIgnore = false; return true },
 		func(s *Scenario) bool { s.C14.TailNoise = nil; return true },
 		func(s *Scenario) bool { s.C14.NoFinalEOL = false; return true },
 		func(s *Scenario) bool {
